@@ -95,14 +95,14 @@ CLAIMED = {
              "boundary, undo stack a valid edit script, kill ring consistent, saved line valid, buffer growable. "
              "(a) C17_execute_never_panics: from any state with J, executing ANY command (every Movement, count, word "
              "definition; kills, yanks, transposes, case changes, indent, history moves and searches, undo, accept) never reaches "
-             "a Panic of the model and re-establishes J (a yank-pop needs the remembered yank to end at the cursor); "
+             "a Panic of the model and re-establishes J, hence any sequence of commands (C17_commands_never_panic); "
              "(b) C17_next_cmd_never_panics: reading the next command (decoder, Emacs / vi keymaps, digit arguments, bindings, "
              "repeat) never panics, keeps J and touches neither line nor kill ring; (c) every LineBuffer operation is total "
              "(C03_all_total_wf); the initial state has J. PARTIAL: the composition over a whole read is not a theorem -- the "
              "attempt showed why: known finding K9 (an Alt key inside a vi search pops the search's undo marker) breaks the undo "
              "invariant, so J is NOT an invariant of every read; the sub-loops (completion with a user-supplied completer, search), "
              "the select/poll path with a printer, resizes and stop/continue are decided by the junk / long streams on the real "
-             "back end (catch_unwind, stall detection, a result for every read). The proof attempts found F19, F20, F21 (panics, "
+             "back end (catch_unwind, stall detection, a result for every read). The proof attempts found F19, F20, F21, F22 (panics, "
              "repaired) and K9.",
         note=TTY_NOTE + "Runtime behaviour (signals, unsafe, kernel) is exercised, not modelled; debug_assert! conditions of the layout are not modelled.",
         technique="Coq proof: progress calculus over the editor monad (input size non-increasing / decreasing, fuel bounded by input) with fuel induction for all nine loops; totality calculus for the decoder; invariant-preservation calculus (no Panic + J) over every command and the whole keymap, resting on the totality of every line-buffer operation; extracted-model differential check on junk input through a pty + crash/stall oracle"),
@@ -152,7 +152,7 @@ CLAIMED = {
              "cursor is on a character boundary the operation returns (the model's Panic -- slice off a boundary, underflow, "
              "unwrap of None -- is unreachable) and the cursor is on a boundary again; hence no step of any operation "
              "sequence panics (C03_run_never_panics). Hypotheses: the segmentation partitions the text into non-empty "
-             "clusters (proved for the model's UAX #29 segmentation: C03_all_total_wf_useg has no hypothesis); the six "
+             "clusters (proved for the model's UAX #29 segmentation: C03_all_total_wf_useg has no hypothesis); the five "
              "raw-offset operations carry the crate's stated precondition (offsets on boundaries, ordered). insert/yank "
              "refuse or stay within a fixed capacity. The tie to the code is the linebuf stream (every operation, "
              "small-exhaustive + random).",
